@@ -1,4 +1,4 @@
-import GqlProofs.Schema.Perm
+import GqlProofs.Schema.Sound
 import GqlProofs.Schema.ErrLoc
 import GqlProofs.Schema.Examples
 /-
@@ -23,17 +23,32 @@ theorem C17_merge_comm_perm (a b : SchemaDoc) :
 theorem C17_merge_assoc (a b c : SchemaDoc) : (a.merge b).merge c = a.merge (b.merge c) := by
   simp [SchemaDoc.merge, List.append_assoc]
 
-/-- R17a (kernel-checked): two `extend schema { query: … }` blocks load in both orders, with
-    different query roots — the loaded schema depends on the order of the sources -/
-theorem C17_schema_perm_counterexample :
-    ∃ sd sd' s s', sd'.schemaExt.Perm sd.schemaExt ∧ sd'.definitions = sd.definitions ∧
-      load sd = .ok s ∧ load sd' = .ok s' ∧ s.query ≠ s'.query := by
-  refine ⟨Examples.rootsAB, Examples.rootsBA,
-    mkSchema Examples.rootsAB (match buildState Examples.rootsAB with | .ok st => st | .error _ => default)
-      { query := some (str "B"), mutation := none, subscription := none } [],
-    mkSchema Examples.rootsBA (match buildState Examples.rootsBA with | .ok st => st | .error _ => default)
-      { query := some (str "A"), mutation := none, subscription := none } [], ?_, rfl, rfl, rfl, by decide⟩
-  exact List.Perm.swap _ _ _
+/-- **R17a repaired**: a document that gives some operation a root type more than once — in the
+    schema definition, in its extensions, or across them — is rejected.  The hypothesis counts entry
+    points, so it does not depend on the order of the blocks (`C17_rootsOnce_perm`): the repeated-root
+    document is rejected in EVERY order.  (Before the repair both orders loaded, with different roots.) -/
+theorem C17_repeated_root_rejected {sd : SchemaDoc} (h : Spec.rootOperationTypesOnce sd = false) :
+    (load sd).isOk = false := by
+  cases hl : load sd with
+  | ok s => rw [load_rootsOnce hl] at h; cases h
+  | err e => rfl
+  | panic => rfl
+
+/-- the hypothesis of `C17_repeated_root_rejected` is invariant under reordering the `extend schema` blocks -/
+theorem C17_rootsOnce_perm {sd sd' : SchemaDoc} (h1 : sd'.schema = sd.schema) (h2 : sd'.schemaExt.Perm sd.schemaExt) :
+    Spec.rootOperationTypesOnce sd' = Spec.rootOperationTypesOnce sd := by
+  have hp : (((sd'.schema ++ sd'.schemaExt).flatMap (·.opTypes)).map (·.op)).Perm
+      (((sd.schema ++ sd.schemaExt).flatMap (·.opTypes)).map (·.op)) := by
+    rw [h1]
+    exact ((h2.append_left sd.schema).flatMap_right _).map _
+  simp only [Spec.rootOperationTypesOnce, (hp.filter _).length_eq]
+
+/-- the former witness of order dependence, kernel-checked: `extend schema { query: A }` and
+    `extend schema { query: B }` are rejected in both orders -/
+theorem C17_repeated_root_witness :
+    Examples.rootsBA.schemaExt.Perm Examples.rootsAB.schemaExt ∧ Examples.rootsBA.definitions = Examples.rootsAB.definitions ∧
+    (load Examples.rootsAB).isOk = false ∧ (load Examples.rootsBA).isOk = false :=
+  ⟨List.Perm.swap _ _ _, rfl, C17_repeated_root_rejected (by decide), C17_repeated_root_rejected (by decide)⟩
 
 /-- R7b (kernel-checked): a redeclared builtin directive — the LAST declaration wins, so the order of
     the sources decides which definition of `@skip` the schema contains -/
@@ -45,12 +60,25 @@ theorem C17_directive_perm_counterexample :
     mkSchema Examples.skipOF (match buildState Examples.skipOF with | .ok st => st | .error _ => default) noRoots [],
     List.Perm.swap _ _ _, rfl, rfl, by decide⟩
 
-/-- the KIND of failure depends on the order of the definitions: with `union U = X` (X undeclared)
-    written before `type T implements U`, the loader panics; written after it, the loader returns an error -/
-theorem C17_verdict_perm_counterexample :
-    ∃ sd sd', sd'.definitions.Perm sd.definitions ∧ sd'.extensions = sd.extensions ∧
-      (load sd).isPanic = true ∧ (load sd').isPanic = false := by
-  refine ⟨Examples.orderUT, Examples.orderTU, ?_, rfl, by decide, by decide⟩
+/-- the KIND of outcome no longer depends on the order of the definitions: the loader never panics,
+    so two documents that differ by a permutation of their definitions both return an error or both
+    load (`C17_ok_perm_definitions`).  (Before the repair `union U = X` written before
+    `type T implements U` made the loader panic, written after it the loader returned an error.) -/
+theorem C17_verdict_perm_definitions {sd sd' : SchemaDoc} (hp : DefsPerm sd sd') :
+    (load sd').isPanic = false ∧ (load sd).isPanic = false ∧ (load sd').isOk = (load sd).isOk := by
+  refine ⟨load_ne_panic sd', load_ne_panic sd, ?_⟩
+  rw [Bool.eq_iff_iff, isOk_iff, isOk_iff]
+  constructor
+  · intro ⟨s, h⟩; exact load_ok_of_defsPerm hp.symm h
+  · intro ⟨s, h⟩; exact load_ok_of_defsPerm hp h
+
+/-- the former witness, kernel-checked: both orders of `union U = X` / `type T implements U` are
+    rejected with an error -/
+theorem C17_verdict_perm_witness :
+    Examples.orderTU.definitions.Perm Examples.orderUT.definitions ∧
+    (load Examples.orderUT).isPanic = false ∧ (load Examples.orderUT).isOk = false ∧
+    (load Examples.orderTU).isPanic = false ∧ (load Examples.orderTU).isOk = false := by
+  refine ⟨?_, by decide, by decide, by decide, by decide⟩
   simp only [Examples.orderUT, Examples.orderTU, Examples.doc]
   apply List.Perm.append_left
   exact List.Perm.cons _ (List.Perm.cons _ (List.Perm.swap _ _ _))
@@ -59,8 +87,8 @@ theorem C17_verdict_perm_counterexample :
 
 /-- **order independence of the verdict**: if `sd'` is `sd` with its type definitions permuted
     (`DefsPerm`: `definitions` permuted arbitrarily; `extensions`, `directives`, `schema`, `schemaExt`
-    unchanged), then `sd'` loads iff `sd` loads.  (The *kind* of failure — error vs panic — and the
-    reported error may differ: `C17_verdict_perm_counterexample`.) -/
+    unchanged), then `sd'` loads iff `sd` loads.  (Neither panics: `C17_verdict_perm_definitions`; the
+    reported error may differ — e.g. which of two equal type names is blamed.) -/
 theorem C17_ok_perm_definitions {sd sd' : SchemaDoc} (hp : DefsPerm sd sd') : (load sd').isOk = (load sd).isOk := by
   rw [Bool.eq_iff_iff, isOk_iff, isOk_iff]
   constructor
@@ -79,8 +107,8 @@ theorem C17_schema_perm_definitions {sd sd' : SchemaDoc} (hp : DefsPerm sd sd') 
   exact E
 
 /-- non-vacuity: a loading document and a proper permutation of it -/
-example : DefsPerm Examples.rootsAB { Examples.rootsAB with definitions := Examples.rootsAB.definitions.reverse } ∧
-    (load Examples.rootsAB).isOk = true :=
+example : DefsPerm Examples.okDoc { Examples.okDoc with definitions := Examples.okDoc.definitions.reverse } ∧
+    (load Examples.okDoc).isOk = true :=
   ⟨⟨List.reverse_perm _, rfl, rfl, rfl, rfl⟩, by decide⟩
 
 /-- **a load error names a file in which one of the nodes involved was written**: the error's
